@@ -7,7 +7,7 @@ Every random choice comes from one SplitMix64 state, so a trace is reproducible 
   own    operation whose (projected) output the property under check speaks about
 """
 
-GEN_VERSION = 5
+GEN_VERSION = 6
 
 MASK64 = (1 << 64) - 1
 
@@ -692,6 +692,160 @@ GENERATORS = {
     "C19": gen_C19,
     "C20": gen_C20,
 }
+
+
+
+# ------------------------------------------------------------------------------------------------
+# bounded-exhaustive family: width 8, all 7 prefixes of length <= 2
+# ------------------------------------------------------------------------------------------------
+# Every one of the 2^7 key subsets is built (ascending or descending insertion order), then every
+# sequence of `depth` mutators over the alphabet below is applied, then the property's observers
+# are run for every key (and a few longer queries); `clear` resets the register between sequences
+# (role "reset": model and implementation are both empty again, so a trace that lost
+# correspondence is re-synchronised there).
+
+SMALL_KEYS = [(0, 0), (0, 1), (1, 1), (0, 2), (1, 2), (2, 2), (3, 2)]
+SMALL_QUERIES = SMALL_KEYS + [(0, 3), (5, 3), (7, 3), (0x2b, 6), (0xff, 8)]
+EXH_PROPS = ("C01", "C02", "C03", "C04", "C09", "C10", "C11", "C12", "C15", "C16", "C18", "C05", "C06", "C07", "C08")
+
+
+def _sfmt(key, host):
+    net, ln = key
+    r = (net << (8 - ln)) if ln > 0 else 0
+    if ln < 8:
+        r |= host & ((1 << (8 - ln)) - 1)
+    return "%02x/%d" % (r, ln)
+
+
+def _exh_alphabet(prop):
+    ops = []
+    for k in SMALL_KEYS:
+        ops.append(("insert", k))
+        ops.append(("remove", k))
+        ops.append(("rkt", k))
+    if prop not in ("C05", "C06", "C07", "C08"):
+        for k in SMALL_KEYS:
+            ops.append(("rc", k))
+            ops.append(("vset", k))
+            ops.append(("vremove", k))
+    return ops
+
+
+def _exh_line(op, k, reg, host, val):
+    q = _sfmt(k, host)
+    if op == "insert":
+        return "insert %s %s %d" % (reg, q, val)
+    if op == "remove":
+        return "remove %s %s" % (reg, q)
+    if op == "rkt":
+        return "remove_keep_tree %s %s" % (reg, q)
+    if op == "rc":
+        return "remove_children %s %s" % (reg, q)
+    if op == "vset":
+        return "viewmut %s at:%s : set %d" % (reg, q, val)
+    if op == "vremove":
+        return "viewmut %s at:%s : remove" % (reg, q)
+    raise ValueError(op)
+
+
+def _exh_observe(prop, out, reg, host, canonical):
+    def q(k):
+        return _sfmt(k, host)
+    own = "own"
+    if prop == "C01":
+        out.append(("gkvs %s %s" % (reg, " ".join(q(k) for k in SMALL_QUERIES)), own))
+        out.append(("iter %s" % reg, own))
+    elif prop == "C02":
+        for k in SMALL_QUERIES:
+            out.append(("get_lpm %s %s" % (reg, q(k)), own))
+        out.append(("get_lpm_prefix %s %s" % (reg, q(SMALL_QUERIES[host % len(SMALL_QUERIES)])), own))
+    elif prop == "C03":
+        for o in ("iter", "into_iter", "keys", "values", "iter_fused", "iter_clone", "into_keys"):
+            out.append(("%s %s%s" % (o, reg, " 1" if o == "iter_clone" else ""), own))
+    elif prop == "C04":
+        out.append(("len %s" % reg, own))
+    elif prop == "C09":
+        for k in SMALL_QUERIES:
+            out.append(("cover %s %s" % (reg, q(k)), own))
+            out.append(("get_spm %s %s" % (reg, q(k)), own))
+    elif prop == "C10":
+        for k in SMALL_QUERIES[:9]:
+            out.append(("children %s %s" % (reg, q(k)), own))
+    elif prop == "C11":
+        for k in SMALL_KEYS:
+            out.append(("view %s at:%s : walk" % (reg, q(k)), own))
+            out.append(("view %s at:%s : pv" % (reg, q(k)), own))
+            out.append(("viewmut %s at:%s : has" % (reg, q(k)), own))
+        out.append(("view %s left right : iter" % reg, own))
+        out.append(("view %s right left : iter" % reg, own))
+    elif prop == "C12":
+        for i, k in enumerate(SMALL_KEYS):
+            k2 = SMALL_QUERIES[(i * 5 + host) % len(SMALL_QUERIES)]
+            k3 = SMALL_QUERIES[(i * 3 + host + 1) % len(SMALL_QUERIES)]
+            out.append(("view %s at:%s find:%s : iter" % (reg, q(k), q(k2)), own))
+            out.append(("view %s at:%s exact:%s : pv" % (reg, q(k), q(k3)), own))
+            out.append(("viewmut %s at:%s lpm:%s : pv" % (reg, q(k), q(k2)), own))
+            out.append(("view %s at:%s lpm:%s : prefix" % (reg, q(k), q(k3)), own))
+    elif prop == "C15":
+        out.append(("shape %s" % reg, own))
+        if canonical:
+            out.append(("shape_fresh %s" % reg, own))
+    elif prop == "C16":
+        out.append(("snap %s" % reg, own))
+    elif prop == "C18":
+        out.append(("iter %s" % reg, own))
+        for k in SMALL_KEYS:
+            out.append(("get_key_value %s %s" % (reg, _sfmt(k, host ^ 0x55)), own))
+
+
+def exhaustive_traces(prop, depth, nshards):
+    """list of traces (list of (line, role)) for ptype u8"""
+    setop = prop in ("C05", "C06", "C07", "C08")
+    alph = _exh_alphabet(prop)
+    canon_ops = ("insert", "remove")
+    shards = [[] for _ in range(nshards)]
+    seqs = [[]]
+    for _ in range(depth):
+        seqs = seqs + [sq + [o] for sq in seqs if len(sq) == max(len(x) for x in seqs) for o in alph]
+    # seqs: all sequences of length 0..depth
+    n = 0
+    val = 1
+    kinds = {"C05": ["union"], "C06": ["intersection"], "C07": ["difference", "covering_difference"],
+             "C08": ["union", "difference"]}.get(prop, [])
+    for sub in range(1 << len(SMALL_KEYS)):
+        keys = [k for i, k in enumerate(SMALL_KEYS) if sub >> i & 1]
+        for sq in seqs:
+            n += 1
+            out = shards[n % nshards]
+            host = (n * 37 + sub) & 0xff
+            order = keys if n % 2 == 0 else list(reversed(keys))
+            out.append(("clear A", "reset"))
+            for k in order:
+                val += 1
+                out.append((_exh_line("insert", k, "A", host if n % 3 else 0, val), "bg"))
+            canonical = all(o in canon_ops for o, _ in sq)
+            for o, k in sq:
+                val += 1
+                out.append((_exh_line(o, k, "A", (host * 7) & 0xff, val), "own" if prop in ("C01", "C04", "C15", "C16", "C18") else "bg"))
+            if not setop:
+                _exh_observe(prop, out, "A", host, canonical)
+            else:
+                # second operand: another subset derived from the counter, with one leftover node now and then
+                sub2 = (sub * 73 + n * 29) & 0x7f
+                keys2 = [k for i, k in enumerate(SMALL_KEYS) if sub2 >> i & 1]
+                out.append(("clear B", "reset"))
+                for k in keys2:
+                    val += 1
+                    out.append((_exh_line("insert", k, "B", (host ^ 0xa5), val), "bg"))
+                if n % 4 == 0 and keys2:
+                    out.append((_exh_line("rkt", keys2[n % len(keys2)], "B", 0, 0), "bg"))
+                va = ["", "at:" + _sfmt(SMALL_KEYS[n % 7], 0), "left", "right", "at:" + _sfmt(SMALL_QUERIES[n % 10], host)][n % 5]
+                vb = ["", "", "at:" + _sfmt(SMALL_KEYS[(n // 5) % 7], 0), "right", "left"][(n // 3) % 5]
+                for kind in kinds:
+                    out.append((" ".join(("setop %s A %s : B %s" % (kind, va, vb)).split()), "own"))
+                    if n % 3 == 0:
+                        out.append((" ".join(("setop %s_mut:1 A %s : B %s" % (kind, va, vb)).split()), "own"))
+    return [sh for sh in shards if sh]
 
 
 def make_trace(prop, seed, index, w, masked, nsteps, canonical=False, small=False):
